@@ -1,7 +1,7 @@
 ID = "C18"
 TESTS = [
     T("nfs41sim", "TestC18NFS41StateAccounting",
-      {"checks": 5000, "shards": 2, "timeout": 300, "args": ["-rapid.shrinktime=15s"]},
+      {"checks": 3500, "shards": 3, "timeout": 300, "args": ["-rapid.shrinktime=15s"]},
       {"checks": 30000, "shards": 5, "timeout": 1500}),
     T("nfs41sim", "TestC18Regress.*",
       {"checks": 1, "shards": 1, "timeout": 120},
@@ -10,5 +10,8 @@ TESTS = [
 ASSUMPTIONS = [
     "nfs41: leaves are instrumented in-memory files of the harness (counting opens/closes per share bit, parking inside VirtualRead/VirtualWrite) underneath the real NFS handle allocator decorator; the root directory is the real in-memory prepopulated directory behind a decorator that parks before/after the real VirtualOpenChild (outside the directory lock)",
     "nfs41: lease expiry is modelled exactly as documented by the code: an incarnation is reclaimed by the first call that enters the program more than the lease time after its last renewal (completion of its last SEQUENCE compound / successful CREATE_SESSION / EXCHANGE_ID that created it) while none of its compounds is in flight",
+    "nfs41: injected VFS failures are one-shot and fail the call before the fake has done anything (a failed VirtualOpenSelf/VirtualOpenChild/file allocation has not opened or created the file; a failed VirtualRead/VirtualWrite/VirtualSetAttributes has not changed it), which is the contract the real pool-backed files follow",
+    "nfs41: OPEN(CLAIM_PREVIOUS) by an open-owner that has open state for the file with delegate type NONE may be granted as a further OPEN of that owner (what the code documents) or refused; in every other case it must be refused with NFS4ERR_RECLAIM_BAD or NFS4ERR_NO_GRACE (the server has no grace period); the four delegation claims and share_deny != NONE must be refused (any of the statuses the code or RFC 8881 18.16 name) with leaf counters, file count, root change ID and state record counts unchanged",
+    "nfs41: PUTFH of a file that is neither linked nor open is expected to fail with NFS4ERR_STALE: the property text only requires reachability while open; NFS4ERR_STALE afterwards is what the wired NFSStatefulHandleAllocator.ResolveHandle and OpenedFilesPool.Resolve document for a handle they no longer track",
     "nfs41: state-ID 'other' values are only unique per client incarnation, so a foreign state ID is judged in the requesting client's own namespace (RFC 8881 8.2.4)",
 ]
